@@ -73,7 +73,38 @@ func validatorSources() []vsrc {
 		{"InitDefaults invalid + Validate", ptd("cat:c04_dv"), tvS(tvI(1), &gen.TV{Nil: true}), tvS(tvI(-5), &gen.TV{Nil: true}), objOf("x", num(1)), objOf("l", gen.List(num(1)))},
 		{"InitDefaults + Validate on named int", ptd("cat:c04_ni"), tvI(1), tvI(-1), num(1), num(-1)},
 		{"InitDefaults + Validate on named map", ptd("cat:c04_dm"), &gen.TV{Keys: []string{"k"}, Elems: []*gen.TV{tvI(1)}}, &gen.TV{Keys: []string{"k"}, Elems: []*gen.TV{tvI(-1)}}, objOf("j", num(1)), objOf("j", num(-1))},
+		// InitDefaults installing one invalid value: "good" settings override it, "bad" ones set something else next to it
+		// (pre-filled values are overwritten by InitDefaults or stand next to its entries)
+		{"map InitDefaults inserts an entry failing the element's Validate", ptd("cat:c04_mi"), tvMap("k", tvI(1)), tvMap("k", tvI(-1)), objOf("dflt", num(1)), objOf("j", num(1))},
+		{"map InitDefaults inserts a struct entry failing a tag", ptd("cat:c04_ms"), tvMap("k", tvS(tvI(1), &gen.TV{})), tvMap("k", tvS(tvI(0), &gen.TV{})), objOf("dflt", objOf("r", num(2))), objOf("j", objOf("r", num(2)))},
+		{"map InitDefaults inserts a pointer entry failing a tag", ptd("cat:c04_mp"), tvMap("k", tvPtr(tvS(tvI(1), tvI(0)))), tvMap("k", tvPtr(tvS(tvI(101), tvI(0)))), objOf("dflt", objOf("n", num(2))), objOf("j", objOf("n", num(2)))},
+		{"struct InitDefaults fills a list with an element failing Validate", ptd("cat:c04_dl"), tvS(&gen.TV{Nil: true}, tvI(0)), nil, objOf("l", gen.List(num(1), num(1))), objOf("l", gen.List(num(1)))},
+		{"struct InitDefaults fills a map with an entry failing Validate", ptd("cat:c04_dk"), tvS(&gen.TV{Nil: true}, &gen.TV{}), nil, objOf("m", objOf("dflt", num(1))), objOf("m", objOf("j", num(1)))},
+		{"struct InitDefaults installs a pointer to a value failing Validate", ptd("cat:c04_dp"), tvS(&gen.TV{Nil: true}, tvI(0)), nil, objOf("p", objOf("x", num(1))), objOf("p", objOf("s", gen.Str("a")))},
+		{"struct InitDefaults sets a value failing its tag", ptd("cat:c04_dt"), tvS(tvI(1), &gen.TV{}), nil, objOf("x", num(1)), objOf("y", gen.Str("a"))},
+		{"InitDefaults of a named int sets a value failing Validate", ptd("cat:c04_nj"), tvI(1), nil, num(1), num(-1)},
+		// parameter syntax: fractional and negative plain numbers of seconds, integer literals in other bases, blanks
+		// around '=', bounds beyond 2^53 (the invalid value is the nearest one on the wrong side of the bound)
+		{"tag min (fractional seconds) on duration", one("X", "x", "min=0.5", ptd("dur")), tvS(tvI(sec / 2)), tvS(tvI(sec/2 - 1)), objOf("x", gen.Str("500ms")), objOf("x", gen.Str("100ms"))},
+		{"tag max (negative fractional seconds) on duration", one("X", "x", "max=-0.5", ptd("dur")), tvS(tvI(-sec / 2)), tvS(tvI(-sec/2 + 1)), objOf("x", gen.Str("-1s")), objOf("x", gen.Str("-200ms"))},
+		{"tag max (hexadecimal) on int", one("X", "x", "max=0x10", ptd("int")), tvS(tvI(16)), tvS(tvI(17)), objOf("x", num(16)), objOf("x", num(17))},
+		{"tag min (octal, blanks) on uint", one("X", "x", "min = 017", ptd("uint")), tvS(&gen.TV{U: 15}), tvS(&gen.TV{U: 14}), objOf("x", num(15)), objOf("x", num(14))},
+		{"tag max beyond 2^53 on int64", one("X", "x", "max=9007199254740992", ptd("int64")), tvS(tvI(9007199254740992)), tvS(tvI(9007199254740993)), objOf("x", num(9007199254740992)), objOf("x", num(9007199254740993))},
+		// validate tags on inline fields: the setting of the struct is the list / object itself
+		{"tag nonzero on inline []struct", oneInline("nonzero", tdOf("slice", one("Y", "y", "", ptd("int")))), tvS(tvS(tvS(tvI(0)))), tvS(tvS()), gen.List(objOf("y", num(1))), gen.List()},
+		{"tag required on inline []string", oneInline("required", tdOf("slice", ptd("string"))), tvS(tvS(&gen.TV{S: "a"})), tvS(tvS()), gen.List(gen.Str("a")), gen.List()},
+		{"tag required on inline [0]int", oneInline("required", &gen.TD{Kind: "array", N: 0, Elem: ptd("int")}), nil, tvS(tvS()), nil, gen.List()},
+		{"tag nonzero on inline named slice with Validate", oneInline("nonzero", ptd("cat:c04_vl")), tvS(tvS(tvI(1))), tvS(tvS()), gen.List(num(1)), gen.List()},
+		{"tag required on inline map of struct", oneInline("required", tdOf("map", one("Y", "y", "", ptd("int")))), tvS(tvMap("k", tvS(tvI(0)))), tvS(&gen.TV{Keys: []string{}, Elems: []*gen.TV{}}), objOf("k", objOf("y", num(1))), gen.Obj()},
+		{"tag nonzero on inline map with InitDefaults", oneInline("nonzero", ptd("cat:c04_dm")), tvS(tvMap("k", tvI(1))), nil, objOf("k", num(1)), nil},
 	}
+}
+
+func tvMap(k string, v *gen.TV) *gen.TV { return &gen.TV{Keys: []string{k}, Elems: []*gen.TV{v}} }
+
+// oneInline: struct { C T `config:",inline" validate:"..."` }
+func oneInline(validate string, t *gen.TD) *gen.TD {
+	return &gen.TD{Kind: "struct", Fields: []gen.FD{{Name: "C", Inline: true, Validate: validate, T: t}}}
 }
 
 // placement of the inner type I in the field "a" of the top-level struct
@@ -85,6 +116,7 @@ type placement struct {
 	// single placements: wrap one value; collections: wrap the collection value
 	pre func(v *gen.TV) *gen.TV
 	cfg func(v *gen.Tree) *gen.Tree // the top-level configuration object holding the setting
+	top bool                        // the placement is the Unpack target itself (a collection), not the field "a" of a struct
 }
 
 func tdOf(kind string, elem *gen.TD) *gen.TD { return &gen.TD{Kind: kind, Elem: elem} }
@@ -112,32 +144,68 @@ func placements() []placement {
 		}
 	}
 	return []placement{
-		{"direct", func(i *gen.TD) *gen.TD { return i }, "", same1, topA},
-		{"*T", func(i *gen.TD) *gen.TD { return tdOf("ptr", i) }, "", tvPtr, topA},
-		{"**T", func(i *gen.TD) *gen.TD { return tdOf("ptr", tdOf("ptr", i)) }, "", func(v *gen.TV) *gen.TV { return tvPtr(tvPtr(v)) }, topA},
-		{"nested struct", holder(false), "", func(v *gen.TV) *gen.TV { return tvS(v) }, func(v *gen.Tree) *gen.Tree { return objOf("a", objOf("b", v)) }},
-		{"*nested struct", func(i *gen.TD) *gen.TD { return tdOf("ptr", holder(false)(i)) }, "", func(v *gen.TV) *gen.TV { return tvPtr(tvS(v)) }, func(v *gen.Tree) *gen.Tree { return objOf("a", objOf("b", v)) }},
-		{"inline struct", holder(true), "", func(v *gen.TV) *gen.TV { return tvS(v) }, func(v *gen.Tree) *gen.Tree { return objOf("b", v) }},
-		{"[]T", func(i *gen.TD) *gen.TD { return tdOf("slice", i) }, "list", same1, topA},
-		{"[2]T", arr2, "array", same1, topA},
-		{"map[string]T", func(i *gen.TD) *gen.TD { return tdOf("map", i) }, "map", same1, topA},
-		{"[]*T", func(i *gen.TD) *gen.TD { return tdOf("slice", tdOf("ptr", i)) }, "list", mapEach(tvPtr), topA},
-		{"map[string]*T", func(i *gen.TD) *gen.TD { return tdOf("map", tdOf("ptr", i)) }, "map", mapEach(tvPtr), topA},
-		{"*[]T", func(i *gen.TD) *gen.TD { return tdOf("ptr", tdOf("slice", i)) }, "list", tvPtr, topA},
-		{"*map[string]T", func(i *gen.TD) *gen.TD { return tdOf("ptr", tdOf("map", i)) }, "map", tvPtr, topA},
-		{"*[2]T", func(i *gen.TD) *gen.TD { return tdOf("ptr", arr2(i)) }, "array", tvPtr, topA},
+		{"direct", func(i *gen.TD) *gen.TD { return i }, "", same1, topA, false},
+		{"*T", func(i *gen.TD) *gen.TD { return tdOf("ptr", i) }, "", tvPtr, topA, false},
+		{"**T", func(i *gen.TD) *gen.TD { return tdOf("ptr", tdOf("ptr", i)) }, "", func(v *gen.TV) *gen.TV { return tvPtr(tvPtr(v)) }, topA, false},
+		{"nested struct", holder(false), "", func(v *gen.TV) *gen.TV { return tvS(v) }, func(v *gen.Tree) *gen.Tree { return objOf("a", objOf("b", v)) }, false},
+		{"*nested struct", func(i *gen.TD) *gen.TD { return tdOf("ptr", holder(false)(i)) }, "", func(v *gen.TV) *gen.TV { return tvPtr(tvS(v)) }, func(v *gen.Tree) *gen.Tree { return objOf("a", objOf("b", v)) }, false},
+		{"inline struct", holder(true), "", func(v *gen.TV) *gen.TV { return tvS(v) }, func(v *gen.Tree) *gen.Tree { return objOf("b", v) }, false},
+		{"[]T", func(i *gen.TD) *gen.TD { return tdOf("slice", i) }, "list", same1, topA, false},
+		{"[2]T", arr2, "array", same1, topA, false},
+		{"map[string]T", func(i *gen.TD) *gen.TD { return tdOf("map", i) }, "map", same1, topA, false},
+		{"[]*T", func(i *gen.TD) *gen.TD { return tdOf("slice", tdOf("ptr", i)) }, "list", mapEach(tvPtr), topA, false},
+		{"map[string]*T", func(i *gen.TD) *gen.TD { return tdOf("map", tdOf("ptr", i)) }, "map", mapEach(tvPtr), topA, false},
+		{"*[]T", func(i *gen.TD) *gen.TD { return tdOf("ptr", tdOf("slice", i)) }, "list", tvPtr, topA, false},
+		{"*map[string]T", func(i *gen.TD) *gen.TD { return tdOf("ptr", tdOf("map", i)) }, "map", tvPtr, topA, false},
+		{"*[2]T", func(i *gen.TD) *gen.TD { return tdOf("ptr", arr2(i)) }, "array", tvPtr, topA, false},
 		{"[][]T", func(i *gen.TD) *gen.TD { return tdOf("slice", tdOf("slice", i)) }, "list", func(v *gen.TV) *gen.TV {
 			if v == nil || v.Nil {
 				return v
 			}
 			return tvS(v) // one inner slice holding the elements
-		}, func(v *gen.Tree) *gen.Tree { return objOf("a", gen.List(v)) }},
+		}, func(v *gen.Tree) *gen.Tree { return objOf("a", gen.List(v)) }, false},
+		// inline collections: struct { C []T `config:",inline"` } etc. in the field "a"; the setting of "a" is the list / object
+		{"inline []T", func(i *gen.TD) *gen.TD { return oneInline("", tdOf("slice", i)) }, "list", func(v *gen.TV) *gen.TV { return tvS(v) }, topA, false},
+		{"inline [2]T", func(i *gen.TD) *gen.TD { return oneInline("", arr2(i)) }, "array", func(v *gen.TV) *gen.TV { return tvS(v) }, topA, false},
+		{"inline map[string]T", func(i *gen.TD) *gen.TD { return oneInline("", tdOf("map", i)) }, "map", func(v *gen.TV) *gen.TV { return tvS(v) }, topA, false},
+		{"squash []T", func(i *gen.TD) *gen.TD {
+			h := oneInline("", tdOf("slice", i))
+			h.Fields[0].Inline, h.Fields[0].Policy = false, "squash"
+			return h
+		}, "list", func(v *gen.TV) *gen.TV { return tvS(v) }, topA, false},
+		{"*struct with inline []T", func(i *gen.TD) *gen.TD { return tdOf("ptr", oneInline("", tdOf("slice", i))) }, "list", func(v *gen.TV) *gen.TV { return tvPtr(tvS(v)) }, topA, false},
+		// the Unpack target itself is the collection
+		{"target map[string]T", func(i *gen.TD) *gen.TD { return tdOf("map", i) }, "map", same1, func(v *gen.Tree) *gen.Tree { return v }, true},
+		{"target []T", func(i *gen.TD) *gen.TD { return tdOf("slice", i) }, "list", same1, func(v *gen.Tree) *gen.Tree { return v }, true},
+		{"target [2]T", arr2, "array", same1, func(v *gen.Tree) *gen.Tree { return v }, true},
+		// (sources that are maps or lists themselves only)
+		{"target T", func(i *gen.TD) *gen.TD { return i }, "", same1, func(v *gen.Tree) *gen.Tree { return v }, true},
 	}
 }
 
-func enumGrid(yield func(Case) bool) {
+func enumGrid(yield0 func(Case) bool) {
+	// lists: a pre-filled value merged with a literal list setting is also unpacked under each global list policy
+	// (which decides where the kept pre-filled elements end up next to the configured ones)
+	var listPolicies bool
+	yield := func(c Case) bool {
+		if !yield0(c) {
+			return false
+		}
+		if listPolicies && c.Pre != nil && !c.VarExp {
+			for p := 1; p <= 3; p++ {
+				c.Policy = p
+				if !yield0(c) {
+					return false
+				}
+			}
+		}
+		return true
+	}
 	for _, vs := range validatorSources() {
 		for _, pl := range placements() {
+			if k := vs.td.Shape().Kind; pl.name == "target T" && k != "map" && k != "slice" {
+				continue
+			}
 			top := &gen.TD{Kind: "struct", Fields: []gen.FD{{Name: "A", Tag: "a", T: pl.typ(vs.td), Inline: pl.name == "inline struct"}}}
 			if pl.name == "inline struct" {
 				top.Fields[0].Tag = ""
@@ -170,15 +238,37 @@ func enumGrid(yield func(Case) bool) {
 					{"{k:bad}", objOf("k", vs.badCfg)}, {"{n:good}", objOf("n", vs.goodCfg)}, {"{n:bad}", objOf("n", vs.badCfg)}, {"{j:bad k:good}", objOf("j", vs.badCfg, "k", vs.goodCfg)}}
 			}
 			for _, p := range pres {
-				if p.tv != nil && hasNilElem(p.tv) {
-					continue // this validator has no invalid pre-filled value
+				if (p.tv == nil && p.name != "zero") || (p.tv != nil && hasNilElem(p.tv)) {
+					continue // this validator has no such pre-filled value
 				}
 				for _, cf := range cfgs {
-					if cf.v != nil && hasNilVal(cf.v) {
+					if (cf.v == nil && cf.name != "absent") || (cf.v != nil && hasNilVal(cf.v)) {
 						continue
 					}
+					listPolicies = pl.coll == "list" && cf.v != nil && cf.v.K == "list" && len(cf.v.Vals) > 0
 					for _, ref := range []bool{false, true} {
 						c := Case{T: top, Cfg: gen.Obj()}
+						if pl.top {
+							// the configuration itself is the setting; nothing to deliver through a reference, and
+							// "not mentioned" is the empty configuration
+							if ref || (cf.v != nil && cf.v.K == "nil") {
+								continue
+							}
+							c.T = pl.typ(vs.td)
+							if c.T.Shape().Kind != "map" {
+								c.Cfg = gen.List()
+							}
+							if p.tv != nil {
+								c.Pre = pl.pre(p.tv)
+							}
+							if cf.v != nil {
+								c.Cfg = pl.cfg(cf.v.Clone())
+							}
+							if !yield(c) {
+								return
+							}
+							continue
+						}
 						if p.tv != nil {
 							c.Pre = tvS(pl.pre(p.tv))
 						}
@@ -210,6 +300,9 @@ func enumGrid(yield func(Case) bool) {
 // emptyLike returns the empty container of the same kind as the setting (an
 // empty object / list mentions the field without providing values).
 func emptyLike(t *gen.Tree) *gen.Tree {
+	if t == nil {
+		return nil
+	}
 	switch t.K {
 	case "obj":
 		return gen.Obj()
@@ -239,7 +332,7 @@ func hasNilVal(t *gen.Tree) bool {
 
 var subGrid = runlog.Register(&runlog.Sub[Case]{
 	Name: "placement-grid",
-	Rule: "deterministic cross product: 24 validator sources (each documented tag on each kind it is defined for, incl. duration parameters, tags on pointers, regexps and collections of structs; Validate() with value and pointer receiver on structs, named ints, slices and maps; InitDefaults types whose defaults are valid or invalid) x 15 placements (direct, *T, **T, nested, pointer to nested, inline, []T, [2]T, map[string]T, []*T, map[string]*T, *[]T, *map[string]T, *[2]T, [][]T) x pre-filled value (zero / valid / invalid; for collections two elements with the invalid one first or last) x configuration (absent, nil, valid, invalid, empty container, partial mention of a collection, another key) x delivery (literal / whole setting through ${r0}); same oracle as the random search. Non-trivial and distinct as there. The enumeration is complete for this finite product.",
+	Rule: "deterministic cross product: 43 validator sources (each documented tag on each kind it is defined for, incl. duration parameters in unit syntax and as whole, fractional and negative numbers of seconds, integer parameters in hexadecimal and octal, spelt with blanks, and beyond 2^53, tags on pointers, regexps and collections of structs; Validate() with value and pointer receiver on structs, named ints, slices and maps; InitDefaults types whose defaults are valid or invalid, among them 8 whose InitDefaults installs one invalid map entry / list element / pointee / field that the 'good' setting overrides and the 'bad' setting leaves in place next to another key; required / nonzero tags on inline slices, arrays, named slices and maps - the inline map sources only while D55 is not open) x 24 placements (direct, *T, **T, nested, pointer to nested, inline struct, []T, [2]T, map[string]T, []*T, map[string]*T, *[]T, *map[string]T, *[2]T, [][]T; inline []T, inline [2]T, inline map[string]T, squash []T, pointer to a struct with inline []T; the Unpack target itself being map[string]T, []T, [2]T or, for map and list sources, T) x pre-filled value (zero / valid / invalid; for collections two elements with the invalid one first or last) x configuration (absent, nil, valid, invalid, empty container, partial mention of a collection, another key) x delivery (literal / whole setting through ${r0}; literal only for collection targets) x, for a pre-filled list placement with a non-empty literal list setting, the global list policy (none, replace, append, prepend); same oracle as the random search. Non-trivial and distinct as there. The enumeration is complete for this finite product.",
 	Enum: enumGrid,
 	Run:  runCase,
 })
